@@ -90,14 +90,14 @@ Definition is_hex (c : Z) : bool :=
   is_digit c || ((97 <=? c) && (c <=? 102)) || ((65 <=? c) && (c <=? 70)).
 Definition is_alnum (c : Z) : bool :=
   is_digit c || ((97 <=? c) && (c <=? 122)) || ((65 <=? c) && (c <=? 90)).
-(* Go int is 64 bit two's complement *)
-Definition wrap64 (x : Z) : Z := (x + 9223372036854775808) mod 18446744073709551616 - 9223372036854775808.
 Definition hex_val (c : Z) : Z := if c <=? 57 then c - 48 else if c <=? 70 then c - 65 + 10 else c - 97 + 10.
 Definition byte_of (c : Z) : Z := c mod 256.
 
-Fixpoint scan_hex (l : list Z) (acc : Z) : Z * Z :=      (* digits consumed, value *)
+(* digits consumed, value; like the decimal loop it stops once the accumulator has left the range of interest
+   (c < 0x10000), so the accumulator stays below 2^20 and a Go int never wraps *)
+Fixpoint scan_hex (l : list Z) (acc : Z) : Z * Z :=
   match l with
-  | c :: t => if is_hex c then let '(n, v) := scan_hex t (wrap64 (acc * 16 + hex_val c)) in (1 + n, v)
+  | c :: t => if (acc <? 65536) && is_hex c then let '(n, v) := scan_hex t (acc * 16 + hex_val c) in (1 + n, v)
               else (0, acc)
   | [] => (0, acc)
   end.
